@@ -373,6 +373,11 @@ impl<'p> Gen<'p> {
                 ops.insert(pos, op);
             }
         }
+        if api.is_scoped() && self.p.panic_pct > 0 && self.rng.chance(3, 100) {
+            // the closure owns a value whose destructor panics (instead of a panic in the body)
+            ops.push(BodyOp::ArmBomb);
+            return ops;
+        }
         if api.is_scoped() && nflat > 0 && self.rng.chance(self.p.escape_pct, 1000) {
             ops.push(BodyOp::EscapeData(self.rng.below(nflat)));
         }
